@@ -71,9 +71,6 @@ def classify(rec):
     sql = rec.get("sql") or ""
     v = rec["verdict"]
     wcols = pg.meta.get("wcols") or {}
-    # F56: a range frame with a numeric offset over several sort keys (or none) compiles to SQL no engine accepts
-    if v == "sql-err" and pg.meta.get("range_invalid") and W.RANGE_OFFSET_MSG in str(rec.get("sqlite")):
-        return "F56-range-offset-without-single-sort-key"
     # F51: a window function written directly as a sort key is lowered without any window (no OVER)
     direct = [m for m in wcols.values() if m.get("sortdirect")]
     if direct and v in ("rows", "sql-err"):
@@ -143,6 +140,21 @@ def run_stream(ck, stream, cases, targets, sample_every=211):
         why = judge(rec)
         if i % sample_every == 0:
             ck.sample(summarize(rec))
+        if pg.meta.get("range_invalid") and any(m["fn"] in ("sum", "min", "max", "average", "count") for m in (pg.meta.get("wcols") or {}).values()):
+            # a RANGE offset over no sort key or several, used by a function that takes a frame clause: the modelled error
+            reasons = [e.get("reason") for e in (rec.get("compile") or {}).get("err", [])] if rec["verdict"] == "compile-err" else None
+            if reasons == [W.RANGE_KEYS_MSG]:
+                ck.stat(stream, "rejected-as-modelled")
+                continue
+            dead = rec.get("sql") is not None and not re.search(r"RANGE BETWEEN (?:\d+ (?:PRECEDING|FOLLOWING)|[A-Z ]+ AND \d+ (?:PRECEDING|FOLLOWING))", rec["sql"])
+            if dead:
+                # the column that would carry the frame is not used downstream and never reaches translate_windowed
+                ck.stat(stream, "range-offset-column-dead")
+            else:
+                ck.stat(stream, "disagreement:UNEXPLAINED")
+                ck.disagreement("a range frame with an offset over %s is not rejected as the model of translate_windowed says (%s): %s [%s]" % (
+                    "several sort keys / none", rec["verdict"], rec["prql"].replace("\n", " | ")[:300], rec["target"]), R.replay_of(rec), lambda _c: None)
+                continue
         rej = pg.meta.get("rejected")
         if rej:
             # an empty rows / range argument: the program must be rejected with exactly the modelled error
